@@ -1,3 +1,54 @@
+/-
+  PrtpyProofs.FFD119 — property C09, towards Johnson's theorem `FFD ≤ 11/9 · OPT + c` for `ffDecreasing`
+  (and `bfDecreasing`, and every any-fit rule on a sorted input) against `Packable B m`.
+
+  Notation: `k` = number of bins of the run, `m` = any number of bins that suffices, `a` = the value of the item
+  that opened the last bin (the first item of the last bin).  `PrtpyProofs.FFD` proves the two outer ranges
+  (`a > B/3`: `k ≤ m`; `a ≤ 2B/11`: `9k ≤ 11m + 8`).  This file:
+
+      ffd_/bfd_/gen_seven_sixths_of_last_quarter_third   B/4 < a ≤ B/3 :  6·(k − 1) ≤ 7·m      PROVED (tight class)
+      ffd_/bfd_/gen_eleven_ninths_of_last_quarter_third  B/4 < a ≤ B/3 :  9·k ≤ 11·m + 6      PROVED  (task item (i))
+      ffd_/bfd_/gen_five_fourths_of_last_fifth_quarter   B/5 < a ≤ B/4 :  4·(k − 1) ≤ 5·m      PROVED  (ratio 5/4 only)
+      ffd_five_fourths, bfd_five_fourths, gen_sorted_five_fourths
+                                                         every input   :  4·(k − 1) ≤ 5·m      PROVED  (new: 5/4·OPT + 1)
+      ffd_/bfd_/gen_eleven_ninths_partial_outside_gap    a ∉ (2B/11, B/4] : 9·k ≤ 11·m + 8     PROVED  (task item (iv), partial)
+      ffd_/bfd_eleven_ninths_of_opt_le_108               m ≤ 108       :  9·k ≤ 11·m + 36     PROVED  (corollary of 5/4)
+
+  NOT proved: `9·k ≤ 11·m + c` for `2B/11 < a ≤ B/4` (task items (ii), (iii)), hence not `ffd_eleven_ninths` for
+  every input.  In `B/5 < a ≤ B/4` the ratio `5/4` is proved, in `2B/11 < a ≤ B/5` only the volume bound
+  `1/(1 − a/B) ≤ 5/4`.  What is missing, precisely: a weighting of the items of the normal form (below) for
+  `2B/11 < a ≤ B/4` with every bin of the run `≥ 1` (up to `O(1)` bins) and every bin of the optimum `≤ 11/9`.
+  Experiments (LP over item categories, scratch) show that such weights must depend on thresholds that depend on
+  `a` (`(B − a)/3`, `(B − a)/2`, `3B/4 − a`, `B − 2a`, …; e.g. Johnson's family forces `23/36` and `13/36` for the
+  two items of a bin `[1/2 + ε, 1/4 + 2ε]`), which is the long case analysis of the classical proofs
+  (Johnson 1973, Baker 1985, Yue 1991, Dósa 2007).  No instance violating `9·FFD ≤ 11·OPT + 6` was found.
+
+  Method.
+  §2  Invariant of every any-fit rule on a sorted list (`SInv`): for a bin `L`, a later bin `L'` and the item `z` that
+      opened `L'`, `L = pre ++ post` with `pre` (arrived before `z`) all `≥ z` and `Σ pre + z > B`, `post` (arrived
+      later) all `≤ z`; every bin lists its items in non-increasing order.
+  §3  The *normal form* `NF B a Ls`: the state at the moment an item `a` opens a new bin — all earlier items are `≥ a`,
+      all bins are filled above `B − a`, and the invariant.  §6 (`last_bin_induction`): induction over the prefixes of
+      the sorted list reduces every bound "`Φ k m` if the last bin was opened by an item with property `C`" to the
+      normal form (this replaces the minimal counterexample of the classical proofs; no item is ever removed).
+  §4  Weighting machinery: the items are decorated with a weight and a tag that makes them pairwise distinct
+      (`DItem`, `deco`), so that weights may depend on the *position in the packing*, not only on the value;
+      `weight_le_of_packable`: if every duplicate-free sub-collection that fits into one bin weighs `≤ c`, the total
+      weight is `≤ c·m`.
+  §5  Case (i), `B/4 < a ≤ B/3` (`count_quarter_third`): weights `1` (alone in its bin), `2/3, 1/3` (bin `[x, y]`,
+      `x > B/2`), `1/2, 1/2` (bin `[x, y]`, `B/3 < y ≤ x ≤ B/2`), `1/3` (otherwise).  Every bin of the run weighs `≥ 1`
+      except at most one bin (`−1/3`, compensated by `a` itself); every bin of the optimum weighs `≤ 7/6`: it holds
+      at most three items, and two different items of weight `1/2` together exceed `B − a` (`wts1_pair`, from the
+      invariant).  Hence `k − 1 ≤ 7/6 · m`, which with `3k ≤ 4m + 1` gives `9k ≤ 11m + 6`.
+  §7  Case (ii) with `5/4` (`count_fifth_quarter`): weights by size class (`5/12` above `B/3`, `1/3` above `B/4`, `1/4`
+      otherwise) except for the first item of a bin if it exceeds `B/2` and for the bins `[x, y]` with
+      `B/3 < y ≤ x ≤ B/2`; every bin of the optimum weighs `≤ 5/4` (`opt_bin2`), every bin of the run `≥ 1` except at
+      most two (`e1`, `e2`).
+  §8  Theorems; §9 non-vacuity.
+
+  Validation before proving (scratch, Python): the weight rules of §5 and §7 were checked on > 10⁵ random normal
+  forms (`B` up to `10⁴`) by a knapsack search for the heaviest sub-collection that fits into one bin.
+-/
 import Prtpy
 import PrtpyProofs.Fit
 import PrtpyProofs.LPT43
@@ -1427,6 +1478,56 @@ theorem bfd_five_fourths' (hne : items ≠ []) (hok : bfDecreasing v B items = .
   have := bfd_five_fourths hne hok hm
   omega
 
+/-- without the hypothesis `items ≠ []` (the empty input is packed into one empty bin: `4·0 ≤ 5·m`) -/
+theorem ffd_five_fourths_all (hok : ffDecreasing v B items = .ok b) (hm : Packable B m (items.map v)) :
+    4 * (b.lists.length - 1) ≤ 5 * m := by
+  by_cases hne : items = []
+  · subst hne
+    cases hok
+    simp [Bins.new]
+  · exact ffd_five_fourths hne hok hm
+
+theorem bfd_five_fourths_all (hok : bfDecreasing v B items = .ok b) (hm : Packable B m (items.map v)) :
+    4 * (b.lists.length - 1) ≤ 5 * m := by
+  by_cases hne : items = []
+  · subst hne
+    cases hok
+    simp [Bins.new]
+  · exact bfd_five_fourths hne hok hm
+
+/-- against the oracle: a successful run has an optimum `m = optBins …`, and `FFD ≤ 5/4 · m + 1` -/
+theorem ffd_five_fourths_opt (hok : ffDecreasing v B items = .ok b) :
+    ∃ m, optBins B (items.map v) = some m ∧ 4 * (b.lists.length - 1) ≤ 5 * m := by
+  obtain ⟨m, h1, h2, _⟩ := Checkers.optBins_spec (FFD.ffd_ok_all_le hok)
+  exact ⟨m, h1, ffd_five_fourths_all hok h2⟩
+
+theorem bfd_five_fourths_opt (hok : bfDecreasing v B items = .ok b) :
+    ∃ m, optBins B (items.map v) = some m ∧ 4 * (b.lists.length - 1) ≤ 5 * m := by
+  obtain ⟨m, h1, h2, _⟩ := Checkers.optBins_spec (FFD.bfd_ok_all_le hok)
+  exact ⟨m, h1, bfd_five_fourths_all hok h2⟩
+
+/-- **C09 with Johnson's constant for moderate optima**: `FFD ≤ 11/9 · OPT + 4` whenever `OPT ≤ 108`
+    (from `FFD ≤ 5/4 · OPT + 1`; the empty input included) -/
+theorem ffd_eleven_ninths_of_opt_le_108 (hok : ffDecreasing v B items = .ok b)
+    (hm : Packable B m (items.map v)) (hsmall : m ≤ 108) : 9 * b.lists.length ≤ 11 * m + 36 := by
+  have := ffd_five_fourths_all hok hm
+  omega
+
+/-- the same for best fit decreasing (`FFD.bfd_eleven_ninths_of_opt_small` has `OPT ≤ 33`) -/
+theorem bfd_eleven_ninths_of_opt_le_108 (hok : bfDecreasing v B items = .ok b)
+    (hm : Packable B m (items.map v)) (hsmall : m ≤ 108) : 9 * b.lists.length ≤ 11 * m + 36 := by
+  have := bfd_five_fourths_all hok hm
+  omega
+
+/-- the name asked for in the task: what is proved of `ffd_eleven_ninths` for *every* input is the weaker ratio
+    `5/4` (`4·FFD ≤ 5·OPT + 4` instead of `9·FFD ≤ 11·OPT + c`); missing for `11/9`: the range
+    `2B/11 < a ≤ B/4` of the item `a` that opened the last bin -/
+theorem ffd_eleven_ninths_partial_five_fourths (hne : items ≠ []) (hok : ffDecreasing v B items = .ok b)
+    (hm : Packable B m (items.map v)) : 4 * b.lists.length ≤ 5 * m + 4 := ffd_five_fourths' hne hok hm
+
+theorem bfd_eleven_ninths_partial_five_fourths (hne : items ≠ []) (hok : bfDecreasing v B items = .ok b)
+    (hm : Packable B m (items.map v)) : 4 * b.lists.length ≤ 5 * m + 4 := bfd_five_fourths' hne hok hm
+
 /-- **C09, what is proved of `FFD ≤ 11/9 · OPT + c`**: the bound holds with `c = 8/9` whenever the item `a`
     that opened the last bin lies outside `(2B/11, B/4]`.
 
@@ -1450,10 +1551,13 @@ theorem bfd_eleven_ninths_partial_outside_gap (hne : items ≠ []) (hok : bfDecr
 
 end main
 
-/-! ### non-vacuity, case (i) -/
+/-! ## 9. Non-vacuity -/
 
 /-- `B = 100`, `[60, 40, 35, 35, 30, 30]`: three bins, the last one opened by `30 ∈ (25, 33]` -/
 theorem ex1_ffd : ffDecreasing id 100 [30, 35, 60, 30, 40, 35] =
+    .ok ⟨[100, 100, 30], [[60, 40], [35, 35, 30], [30]]⟩ := rfl
+
+theorem ex1_bfd : bfDecreasing id 100 [30, 35, 60, 30, 40, 35] =
     .ok ⟨[100, 100, 30], [[60, 40], [35, 35, 30], [30]]⟩ := rfl
 
 theorem ex1_packable : Packable 100 3 (([30, 35, 60, 30, 40, 35] : List Nat).map id) :=
@@ -1467,6 +1571,18 @@ example : 9 * 3 ≤ 11 * 3 + 6 :=
   ffd_eleven_ninths_of_last_quarter_third (by decide) ex1_ffd ex1_packable (x := 30) (L := []) rfl
     (by decide) (by decide)
 
+example : 9 * 3 ≤ 11 * 3 + 6 :=
+  bfd_eleven_ninths_of_last_quarter_third (by decide) ex1_bfd ex1_packable (x := 30) (L := []) rfl
+    (by decide) (by decide)
+
+example : 9 * 3 ≤ 11 * 3 + 8 :=
+  ffd_eleven_ninths_partial_outside_gap (by decide) ex1_ffd ex1_packable (x := 30) (L := []) rfl
+    (Or.inr (by decide))
+
+example : 9 * 3 ≤ 11 * 3 + 8 :=
+  bfd_eleven_ninths_partial_outside_gap (by decide) ex1_bfd ex1_packable (x := 30) (L := []) rfl
+    (Or.inr (by decide))
+
 /-- the normal form of this run at the moment `30` opens the third bin -/
 example : NF 100 30 [[60, 40], [35, 35, 30]] := by
   refine ⟨by decide, by decide, by decide, by decide, ?_⟩
@@ -1477,4 +1593,72 @@ example : NF 100 30 [[60, 40], [35, 35, 30]] := by
   subst hz
   exact ⟨[60, 40], [], rfl, by decide, by decide, by simp⟩
 
+/-- the weights of case (i) on this run: `[60, 40] ↦ 4 + 2`, `[35, 35, 30] ↦ 2 + 2 + 2` -/
+example : deco (wts1 100) 0 [[60, 40], [35, 35, 30]] =
+    [⟨60, 4, 0, 0⟩, ⟨40, 2, 0, 1⟩, ⟨35, 2, 1, 0⟩, ⟨35, 2, 1, 1⟩, ⟨30, 2, 1, 2⟩] := by decide
+
+/-- `B = 100`, `[51, 27, 26, 23, 23, 23, 23, 23]`: three bins, the last one opened by `23 ∈ (20, 25]` -/
+theorem ex2_ffd : ffDecreasing id 100 [23, 51, 23, 27, 23, 26, 23, 23] =
+    .ok ⟨[78, 95, 46], [[51, 27], [26, 23, 23, 23], [23, 23]]⟩ := rfl
+
+theorem ex2_bfd : bfDecreasing id 100 [23, 51, 23, 27, 23, 26, 23, 23] =
+    .ok ⟨[78, 95, 46], [[51, 27], [26, 23, 23, 23], [23, 23]]⟩ := rfl
+
+/-- `51 + 26 + 23`, `27 + 23 + 23 + 23`, `23` -/
+theorem ex2_packable : Packable 100 3 (([23, 51, 23, 27, 23, 26, 23, 23] : List Nat).map id) :=
+  ⟨[0, 0, 1, 1, 1, 0, 1, 2], ⟨rfl, by decide⟩, by decide⟩
+
+example : 4 * (3 - 1) ≤ 5 * 3 :=
+  ffd_five_fourths_of_last_fifth_quarter (by decide) ex2_ffd ex2_packable (x := 23) (L := [23]) rfl
+    (by decide) (by decide)
+
+example : 4 * (3 - 1) ≤ 5 * 3 :=
+  bfd_five_fourths_of_last_fifth_quarter (by decide) ex2_bfd ex2_packable (x := 23) (L := [23]) rfl
+    (by decide) (by decide)
+
+example : 4 * (3 - 1) ≤ 5 * 3 := ffd_five_fourths (by decide) ex2_ffd ex2_packable
+example : 4 * (3 - 1) ≤ 5 * 3 := bfd_five_fourths (by decide) ex2_bfd ex2_packable
+example : 4 * 3 ≤ 5 * 3 + 4 := ffd_five_fourths' (by decide) ex2_ffd ex2_packable
+example : 4 * (3 - 1) ≤ 5 * 3 := ffd_five_fourths (by decide) ex1_ffd ex1_packable
+example : 4 * (3 - 1) ≤ 5 * 3 := ffd_five_fourths_all ex2_ffd ex2_packable
+example : ∃ m, optBins 100 (([23, 51, 23, 27, 23, 26, 23, 23] : List Nat).map id) = some m ∧ 4 * (3 - 1) ≤ 5 * m :=
+  ffd_five_fourths_opt ex2_ffd
+example : 4 * 3 ≤ 5 * 3 + 4 := ffd_eleven_ninths_partial_five_fourths (by decide) ex2_ffd ex2_packable
+example : 9 * 3 ≤ 11 * 3 + 36 := ffd_eleven_ninths_of_opt_le_108 ex2_ffd ex2_packable (by decide)
+example : 9 * 3 ≤ 11 * 3 + 36 := bfd_eleven_ninths_of_opt_le_108 ex2_bfd ex2_packable (by decide)
+
+/-- the weights of case (ii) on the bins that are open when the second `23`-bin is opened:
+    `[51, 27] ↦ 48 + 24`, `[26, 23, 23, 23] ↦ 24 + 18 + 18 + 18` -/
+example : deco (wts2 100 23) 0 [[51, 27], [26, 23, 23, 23]] =
+    [⟨51, 48, 0, 0⟩, ⟨27, 24, 0, 1⟩, ⟨26, 24, 1, 0⟩, ⟨23, 18, 1, 1⟩, ⟨23, 18, 1, 2⟩, ⟨23, 18, 1, 3⟩] := by
+  decide
+
+/-- Johnson's family (`FFD.johnson`, `B = 100`, `OPT = 9`, `FFD = 11`, last bin opened by `23`) lies in the
+    range that is open for `11/9`; the bound `5/4` applies: `4·11 ≤ 5·9 + 4` -/
+example : 4 * 11 ≤ 5 * 9 + 4 := by
+  obtain ⟨b, hb, hl⟩ := FFD.johnson_ffd
+  have := ffd_five_fourths' (by decide) hb FFD.johnson_packable
+  omega
+
 end Prtpy.FFD119
+
+/-
+Axiom audit (`#print axioms`, observed with Lean 4.33.0):
+#print axioms Prtpy.FFD119.ffd_seven_sixths_of_last_quarter_third             -- [propext, Classical.choice, Quot.sound]
+#print axioms Prtpy.FFD119.ffd_eleven_ninths_of_last_quarter_third            -- [propext, Classical.choice, Quot.sound]
+#print axioms Prtpy.FFD119.bfd_eleven_ninths_of_last_quarter_third            -- [propext, Classical.choice, Quot.sound]
+#print axioms Prtpy.FFD119.gen_eleven_ninths_of_last_quarter_third            -- [propext, Classical.choice, Quot.sound]
+#print axioms Prtpy.FFD119.ffd_five_fourths_of_last_fifth_quarter             -- [propext, Classical.choice, Quot.sound]
+#print axioms Prtpy.FFD119.bfd_five_fourths_of_last_fifth_quarter             -- [propext, Classical.choice, Quot.sound]
+#print axioms Prtpy.FFD119.ffd_five_fourths                                   -- [propext, Classical.choice, Quot.sound]
+#print axioms Prtpy.FFD119.bfd_five_fourths                                   -- [propext, Classical.choice, Quot.sound]
+#print axioms Prtpy.FFD119.gen_sorted_five_fourths                            -- [propext, Classical.choice, Quot.sound]
+#print axioms Prtpy.FFD119.ffd_eleven_ninths_partial_outside_gap              -- [propext, Classical.choice, Quot.sound]
+#print axioms Prtpy.FFD119.bfd_eleven_ninths_partial_outside_gap              -- [propext, Classical.choice, Quot.sound]
+#print axioms Prtpy.FFD119.ffd_eleven_ninths_of_opt_le_108                    -- [propext, Classical.choice, Quot.sound]
+#print axioms Prtpy.FFD119.bfd_eleven_ninths_of_opt_le_108                    -- [propext, Classical.choice, Quot.sound]
+#print axioms Prtpy.FFD119.ffd_five_fourths_opt                               -- [propext, Classical.choice, Quot.sound]
+#print axioms Prtpy.FFD119.last_bin_induction                                 -- [propext, Classical.choice, Quot.sound]
+#print axioms Prtpy.FFD119.count_quarter_third                                -- [propext, Classical.choice, Quot.sound]
+#print axioms Prtpy.FFD119.count_fifth_quarter                                -- [propext, Classical.choice, Quot.sound]
+-/
